@@ -44,7 +44,55 @@ def E(t):
   return U.E(t)
 
 
+def extremes_in_one_pass(ctx, rule='RANGE/extremes-in-one-pass'):
+  """Location-independent: the clamped augmentation needs the lowest and the highest pitch of the sequence.  When both are tracked in
+  one loop as `if p < lo: lo = p  elif p > hi: hi = p`, the `elif` is right only if lo and hi start from the same element: started
+  from two sentinels (the top and the bottom of the MIDI range), the first element lowers `lo` and never reaches the test for `hi`,
+  so a sequence whose first note is its highest reports a too small maximum - the clamp then lets a transposition push that note
+  out of range, where it is deleted."""
+  n = 0
+  for q in ('augment_note_sequence', 'transpose_note_sequence'):
+    fi = ctx.func(SL + ':' + q)
+    fn = fi.node
+    for lp in ast.walk(fn):
+      if not isinstance(lp, ast.For):
+        continue
+      for st in lp.body:
+        if not (isinstance(st, ast.If) and len(st.body) == 1 and len(st.orelse) == 1 and isinstance(st.orelse[0], ast.If) and len(st.orelse[0].body) == 1):
+          continue
+        a, b = st, st.orelse[0]
+        def upd(x):
+          s0 = x.body[0]
+          if isinstance(s0, ast.Assign) and len(s0.targets) == 1 and isinstance(s0.targets[0], ast.Name) and isinstance(x.test, ast.Compare) and len(x.test.ops) == 1 and \
+              isinstance(x.test.ops[0], (ast.Lt, ast.LtE, ast.Gt, ast.GtE)):
+            sides = [norm_text(x.test.left), norm_text(x.test.comparators[0])]
+            if s0.targets[0].id in sides and norm_text(s0.value) in sides and s0.targets[0].id != norm_text(s0.value):
+              return s0.targets[0].id, norm_text(s0.value)
+          return None
+        ua, ub = upd(a), upd(b)
+        if not ua or not ub or ua[0] == ub[0] or ua[1] != ub[1]:
+          continue
+        inits = []
+        for nm in (ua[0], ub[0]):
+          d = [x for x in U.walk_stmts(fn) if isinstance(x, ast.Assign) and len(x.targets) == 1 and isinstance(x.targets[0], ast.Name) and x.targets[0].id == nm and x.lineno < lp.lineno]
+          inits.append(norm_text(d[-1].value) if d else None)
+        n += 1
+        same = inits[0] is not None and inits[0] == inits[1]
+        cons = '%s: %s and %s tracked with if / elif start from the same element' % (q, ua[0], ub[0])
+        if None in inits:
+          why = 'cannot classify: the starting values of %s / %s were not found before the loop' % (ua[0], ub[0])
+          ctx.ob(rule, fi, st, False, why, construct=cons, unknown=why)
+          continue
+        ctx.ob(rule, fi, st, same, 'both extremes start from %s' % inits[0] if same else
+               '%s starts from %s and %s from %s, and the loop updates them with if / elif: the element that lowers %s is never compared with %s, so when the first element is the largest one %s '
+               'keeps its starting value (or a smaller element) - the range of the sequence is understated and the clamp admits a transposition that pushes the top note out of range' % (
+                   ua[0], inits[0], ub[0], inits[1], ua[0], ub[0], ub[0]), construct=cons, definite=True)
+  if n == 0:
+    ctx.ob(rule, ctx.func(SL + ':augment_note_sequence'), ctx.func(SL + ':augment_note_sequence').node, True, 'no if / elif tracking of two extremes in one loop', construct='extremes are taken with min / max or from one element')
+
+
 def run(ctx):
+  extremes_in_one_pass(ctx)
   from rules import C15 as _c15      # "root and bass move by k modulo 12" needs every spelled pitch class reduced into 0..11
   _c15.pitch_class_wraps_both_ways(ctx, 'PASS/wrap-both-ways')
   fi = ctx.func(SL + ':transpose_note_sequence')
